@@ -153,7 +153,7 @@ func vfC01Gen(rt *rapid.T) vfC01Case {
 			default:
 				id = uint32(rapid.IntRange(200000, 200005).Draw(rt, "rm_unknown"))
 			}
-			return vfVecOp{Op: "remove", ID: id}
+			return vfVecOp{Op: "remove", ID: id, Vec: vfGenRemovePayload(rt, g)}
 		case w < 68:
 			return vfVecOp{Op: "flush"}
 		case w < 71:
@@ -271,7 +271,7 @@ func vfC01Run(c vfC01Case, ctx *vfCtx) *vfViolation {
 			}
 			ctx.Class("failed_add")
 		case "remove":
-			err := idx.Remove(*NewVectorNodeWithID(op.ID, nil))
+			err := idx.Remove(*NewVectorNodeWithID(op.ID, vfCloneF32(op.Vec)))
 			_, isLive := m.live[op.ID]
 			if isLive && err != nil {
 				return vfFail("op %d: Remove(%d) of a live vector failed: %v", i, op.ID, err)
